@@ -1,6 +1,192 @@
-(* Properties/C05.v — buffered writer flushes exactly what was written, once, in order. *)
-From GV Require Import Lib.Bytes Lib.Res Lib.Heap Spec.Log Model.BufWriter Proofs.BufWriterP.
+(* Properties/C05.v — buffered writer flushes exactly what was written, once, in order
+   (bufiox/defaultbuf.go: DefaultWriter, BytesWriter).  Only statements; proofs are in
+   Proofs/BufWriter{Lib,P,Inv,Ops,Log,Ref,Thm}.v.
+
+   Quantification: every dirty-memory oracle [dirty] (initial contents of every buffer the
+   allocator hands out), every constructor ([init_pair]: NewDefaultWriter over a sink failing at
+   its k-th Write for every k incl. never; NewBytesWriter over nil and over every slice
+   (contents, len <= cap)), every history [h : list wop] of Malloc n (every integer n) /
+   WriteBinary bs (every byte string) / caller stores OFill k off data (any region, offset and
+   data, at any time, in any order, also invalid ones) / Flush / WrittenLen — no bound on sizes,
+   on the number of growths or on the length of the history.  [wrun] / [log_run] fold the step
+   functions of the model (Model/BufWriter.v) and of the specification (Spec/Log.v) over h. *)
+From GV Require Import Lib.Bytes Lib.Res Lib.Heap Spec.Log Model.BufWriter
+  Proofs.BufWriterLib Proofs.BufWriterP Proofs.BufWriterInv Proofs.BufWriterLog Proofs.BufWriterRef
+  Proofs.BufWriterThm.
 Open Scope N_scope.
 
 Theorem C05_bufsz_pos : 0 < bufsz.
 Proof. exact bufsz_pos. Qed.
+
+(* The writer refines the log.  Operation by operation the model shows what the specification
+   shows ([obs_ok]: same error class, same WrittenLen = |L|, and at a Flush that reaches the sink
+   the sink receives exactly L — undetermined positions, i.e. region bytes the caller never
+   stored, may hold anything); at the end the unflushed string, the sink log K (one entry per
+   successful sink write, in order), the published target of a bytes-backed writer and the sticky
+   error agree. *)
+Theorem C05_writer_refines_log : forall dirty w0 l0 h,
+  init_pair w0 l0 ->
+  let wf := fst (wrun dirty w0 h) in
+  let mo := snd (wrun dirty w0 h) in
+  let lf := fst (log_run l0 h) in
+  let so := snd (log_run l0 h) in
+  Forall2 obs_ok so mo /\
+  matches (lL lf) (Lof wf) /\ written_len wf = len (lL lf) /\
+  Forall2 matches (lK lf) (klog (sink wf)) /\
+  matches (ltarget lf) (target_bytes wf) /\
+  werr wf = lerr lf.
+Proof. exact writer_refines_log. Qed.
+
+(* The invariant behind it (DESIGN A.2), in every reachable state: the parked buffers have
+   ordered lengths inside pairwise distinct blocks ([chain]); parked buffer j holds
+   L[l_(j-1) : l_j] at those offsets and the current buffer holds L[l_k :] ([stitched] is that
+   concatenation); the live regions are exactly the windows of L, each lies in the buffer that
+   was current when it was handed out ([region_owned]), and they are pairwise disjoint. *)
+Theorem C05_writer_invariant : forall dirty w0 l0 h,
+  init_pair w0 l0 ->
+  let wf := fst (wrun dirty w0 h) in
+  let lf := fst (log_run l0 h) in
+  match cur wf with
+  | Some (c, l) =>
+    chain (store wf) (pend wf) 0 c l /\ matches (lL lf) (stitched (store wf) (pend wf) 0 c l) /\ len (lL lf) = l
+  | None => pend wf = [] /\ lL lf = []
+  end /\
+  lwin lf = map win_of (live wf) /\
+  Forall (region_owned wf) (live wf) /\
+  ForallOrdPairs (fun r r' => roff r' + rlen r' <= roff r) (live wf) /\
+  Forall (fun r => roff r + rlen r <= len (lL lf)) (live wf).
+Proof. exact writer_invariant. Qed.
+
+(* The executable predicate the correspondence run evaluates on the real implementation's
+   observations ([specok] in Corr/C05.v) holds of the model's observations for every history. *)
+Theorem C05_spec_check_holds : forall dirty w0 l0 h,
+  init_pair w0 l0 ->
+  Forall2 (fun sp im => obs_okb sp im = true) (snd (log_run l0 h)) (snd (wrun dirty w0 h)) /\
+  matches_b (ltarget (fst (log_run l0 h))) (target_bytes (fst (wrun dirty w0 h))) = true.
+Proof. exact writer_obs_okb. Qed.
+
+(* No slice-bounds panic in Malloc/WriteBinary/Flush's stitch loop, the doubling loops never run
+   out of fuel, WriteBinary never writes short: every error class shown is nil, negative count,
+   the sink's error, or an ignored invalid caller store. *)
+Theorem C05_no_crash : forall dirty w0 l0 h,
+  init_pair w0 l0 ->
+  Forall (fun ob => err_known (o_err ob) /\ o_err ob <> E_PANIC /\ o_err ob <> E_FUEL /\ o_err ob <> E_SHORT)
+         (snd (wrun dirty w0 h)).
+Proof. exact writer_no_crash_classes. Qed.
+
+(* Exactly once, in order.  [written h] reads the history without its flushes: one string, in
+   call order, of all Malloc'd regions (patched by every caller store, whenever it happened) and
+   all WriteBinary payloads (as they were at the call).  If no call of h failed (no sink error,
+   no store outside a live region; a negative Malloc is allowed and adds nothing), then the byte
+   strings accepted by the sink, concatenated over all flushes, followed by what is still
+   unflushed, are the initial contents (bytes-backed; empty otherwise) followed by [written h]
+   — whatever the sizes, however many growths and flushes lie in between. *)
+Theorem C05_sink_concat : forall dirty w0 l0 h,
+  init_pair w0 l0 ->
+  let wf := fst (wrun dirty w0 h) in
+  clean (snd (wrun dirty w0 h)) ->
+  matches (lL l0 ++ written h) (concat (klog (sink wf)) ++ Lof wf).
+Proof. exact writer_sink_concat. Qed.
+
+(* ... and when every region was stored completely the sink bytes are that string, exactly *)
+Theorem C05_sink_concat_exact : forall dirty w0 l0 h,
+  init_pair w0 l0 ->
+  let wf := fst (wrun dirty w0 h) in
+  clean (snd (wrun dirty w0 h)) -> determined (lL l0 ++ written h) = true ->
+  map Some (concat (klog (sink wf)) ++ Lof wf) = lL l0 ++ written h.
+Proof. exact writer_sink_concat_exact. Qed.
+
+(* Bytes-backed writer: after the first Flush the target slice is the initial contents followed
+   by the written bytes (nil target: lL l0 = []; a Flush with nothing acquired leaves it nil). *)
+Theorem C05_bytes_target : forall dirty w0 l0 h1,
+  init_pair w0 l0 -> kfake (sink w0) = true ->
+  forallb (fun o => negb (is_flush o)) h1 = true ->
+  clean (snd (wrun dirty w0 h1)) ->
+  matches (lL l0 ++ written h1) (target_bytes (fst (wrun dirty w0 (h1 ++ [OFlush])))).
+Proof. exact writer_bytes_target. Qed.
+
+(* WrittenLen = |L| after every operation is part of C05_writer_refines_log ([obs_ok]); a Flush
+   that returns nil leaves WrittenLen = 0 and no error recorded. *)
+Theorem C05_flush_success_resets : forall dirty st,
+  reachable dirty st ->
+  let st' := fst (wstep dirty st OFlush) in
+  let ob := snd (wstep dirty st OFlush) in
+  o_err ob = E_NONE -> written_len st' = 0 /\ o_len ob = 0 /\ werr st' = None.
+Proof. exact flush_success_resets. Qed.
+
+(* A Flush that returns an error has recorded it, and the sink log is unchanged ... *)
+Theorem C05_flush_error_recorded : forall dirty st,
+  reachable dirty st ->
+  let st' := fst (wstep dirty st OFlush) in
+  let ob := snd (wstep dirty st OFlush) in
+  o_err ob <> E_NONE ->
+  werr st' = Some (o_err ob) /\ o_sink ob = None /\ klog (sink st') = klog (sink st).
+Proof. exact flush_error_recorded. Qed.
+
+(* ... and from then on, for every further history: every Malloc, WriteBinary and Flush returns
+   that error, nothing reaches the sink, the sink (its log, its call count) never changes again,
+   and WrittenLen stays. *)
+Theorem C05_error_sticky : forall dirty h st e,
+  werr st = Some e ->
+  let st' := fst (wrun dirty st h) in
+  let obs := snd (wrun dirty st h) in
+  werr st' = Some e /\ sink st' = sink st /\ written_len st' = written_len st /\
+  Forall2 (fun o ob => o_sink ob = None /\
+                       match o with OMalloc _ | OWrite _ | OFlush => o_err ob = e | _ => True end) h obs.
+Proof. exact error_sticky. Qed.
+
+(* Negative n: an error (the recorded one if any, else "negative count") and no state change. *)
+Theorem C05_malloc_negative : forall dirty st n,
+  (n < 0)%Z ->
+  wstep dirty st (OMalloc n) =
+  (st, mkobs (match werr st with Some e => e | None => E_NEG end) (written_len st) None).
+Proof. exact malloc_negative. Qed.
+
+(* ---------- non-vacuity ---------- *)
+Definition C05_ex_dirty (_ : nat) : bytes := [].
+
+(* init_pair, clean, determined: a default writer, two growths in the first flush, regions
+   stored lazily and out of order, a negative Malloc, two flushes *)
+Definition C05_ex_h : list wop :=
+  [OMalloc 3; OWrite [1; 2]; OMalloc 5000; OFill 0 0 [7; 8; 9]; OMalloc 1; OFill 2 0 [5];
+   OFill 1 0 (repeat 6 5000); OFlush; OWrite [4]; OMalloc (-1); OFlush].
+
+Example C05_example_history :
+  init_pair (new_writer 0) (log_new 0) /\
+  clean (snd (wrun C05_ex_dirty (new_writer 0) C05_ex_h)) /\
+  determined (lL (log_new 0) ++ written C05_ex_h) = true /\
+  klog (sink (fst (wrun C05_ex_dirty (new_writer 0) C05_ex_h))) = [[7; 8; 9; 1; 2] ++ repeat 6 5000 ++ [5]; [4]] /\
+  length (store (fst (wrun C05_ex_dirty (new_writer 0) C05_ex_h))) = 3%nat.
+Proof.
+  split; [constructor|]. split.
+  - vm_compute. repeat (apply Forall_cons; [first [left; reflexivity | right; reflexivity]|]). apply Forall_nil.
+  - split; [vm_compute; reflexivity|]. split; vm_compute; reflexivity.
+Qed.
+
+(* bytes-backed: a partly filled target with spare capacity, then a growth *)
+Example C05_example_bytes :
+  let w0 := new_bytes_writer (Some ([1; 2; 3; 0; 0], 3)) in
+  let h1 := [OMalloc 4; OWrite [5]; OFill 0 0 [9; 9; 9; 9]] in
+  init_pair w0 (log_new_bytes (Some [1; 2; 3])) /\ kfake (sink w0) = true /\
+  forallb (fun o => negb (is_flush o)) h1 = true /\
+  clean (snd (wrun C05_ex_dirty w0 h1)) /\
+  target_bytes (fst (wrun C05_ex_dirty w0 (h1 ++ [OFlush]))) = [1; 2; 3; 9; 9; 9; 9; 5].
+Proof.
+  cbn zeta. split.
+  - apply (init_bytes [1; 2; 3; 0; 0] 3). vm_compute. discriminate.
+  - split; [reflexivity|]. split; [reflexivity|]. split.
+    + vm_compute. repeat (apply Forall_cons; [first [left; reflexivity | right; reflexivity]|]). apply Forall_nil.
+    + vm_compute. reflexivity.
+Qed.
+
+(* a sink failing at its 2nd Write: reachable state with a recorded error; the log stops *)
+Example C05_example_sink_error :
+  let r := wrun C05_ex_dirty (new_writer 2) [OWrite [1]; OFlush; OWrite [2]; OFlush; OWrite [3]; OMalloc 1; OFlush] in
+  reachable C05_ex_dirty (fst r) /\ werr (fst r) = Some E_SINK /\
+  map o_err (snd r) = [0; 0; 0; 2; 2; 2; 2]%Z /\ klog (sink (fst r)) = [[1]].
+Proof.
+  cbn zeta. split.
+  - exists (new_writer 2), (log_new 2), [OWrite [1]; OFlush; OWrite [2]; OFlush; OWrite [3]; OMalloc 1; OFlush].
+    split; [constructor | reflexivity].
+  - split; [vm_compute; reflexivity|]. split; vm_compute; reflexivity.
+Qed.
